@@ -1,25 +1,36 @@
 /- Lemmas/OsPutsp.lean — contract of PUTSP (`putsp_trap`): prologue/epilogue (generic `push_reg`/`pop_reg`), the
    low-byte test, the eight-round shift loop (machine rounds `shift_round`, induction `shift_loop`, arithmetic
    `round_k`/`eight_rounds`: the loop computes `w >>> 8`), two nested `TRAP x21` per word (`pin_out`), induction over the
-   packed string (`PStr`, `putsp_loop`).  Also `step_quiet`: when the device poll that opens a step reports nothing
-   and leaves the devices unchanged, the public `step` is the fetch-execute function all contracts are stated for. -/
+   packed string (`PStr`, `putsp_loop`).  The machine state inside the routine is `InOsQ Q y` (OS loaded, non-strict, supervisor,
+   devices in the quiet set `Q`). -/
 import Lc3V.Lemmas.OsPuts
 namespace Lc3V.Rt
 open Lc3V Sim SimM SimInstr C11 C10
 
+variable {Q : DevHandler → Prop}
+
+/-- inside an OS routine with the devices in the quiet set `Q` -/
+structure InOsQ (Q : DevHandler → Prop) (y : Sim) : Prop extends InOs y where
+  q : Q y.dev
+
+theorem InOsQ.step' {s t : Sim} (h : InOsQ Q s) (hm : MemLow s t) (hc : ctl t = ctl s)
+    (hp : PSR.privileged t.psr = true) (hd : t.dev = s.dev) : InOsQ Q t :=
+  ⟨h.toInOs.step hm hc hp, by rw [hd]; exact h.q⟩
+
+
 /-- one supervisor step: `LD dr, off` from plain memory -/
-theorem step_ld (s : Sim) (dr : Reg) (off : BitVec 9)
+theorem step_ld (QS : QuietSet Q) (s : Sim) (q_s : Q s.dev) (dr : Reg) (off : BitVec 9)
     (hs : s.flags.strict = false) (hp : PSR.privileged s.psr = true) (hpc : s.pc.toNat < IO_START)
     (hd : SimInstr.decode (s.memAt s.pc).data = .ok (.ld dr off))
     (ha : (s.pc + 1 + off.signExtend 16).toNat < IO_START) :
-    ∃ t, fetchExec s = (.ok (), t) ∧ t.pc = s.pc + 1 ∧ t.reg dr = s.memAt (s.pc + 1 + off.signExtend 16) ∧
+    ∃ t, Sim.step s = (.ok (), t) ∧ t.pc = s.pc + 1 ∧ t.reg dr = s.memAt (s.pc + 1 + off.signExtend 16) ∧
       (∀ r, r ≠ dr → t.reg r = s.reg r) ∧
       t.psr = ccOf s.psr (s.memAt (s.pc + 1 + off.signExtend 16)).data ∧ t.dev = s.dev ∧
-      ctl t = ctl s ∧ t.mem = s.mem := by
+      ctl t = ctl s ∧ t.mem = s.mem ∧ Q t.dev := by
   have hx := C08.exec_ld (fetched s) dr off hs
   have ha' : ((fetched s).pc + off.signExtend 16).toNat < IO_START := ha
   rw [Sim.readMem_plain_eq _ _ _ (Or.inl (priv_ctx (s := fetched s) hp)) ha' rfl] at hx
-  refine ⟨_, fetchExec_of_exec s _ _ hs hp hpc hd hx, rfl, ?_, ?_, rfl, rfl, rfl, rfl⟩
+  refine ⟨_, step_of_exec QS s _ _ hs hp hpc hd q_s hx, rfl, ?_, ?_, rfl, rfl, rfl, rfl, q_s⟩
   · show (Sim.setReg _ dr _).reg dr = _
     rw [Sim.reg_setReg, if_pos rfl]; rfl
   · intro r hr
@@ -27,14 +38,14 @@ theorem step_ld (s : Sim) (dr : Reg) (off : BitVec 9)
     rw [Sim.reg_setReg, if_neg (Ne.symm hr)]; rfl
 
 /-- one supervisor step: `AND dr, sr, op2` (data path) -/
-theorem step_and (s : Sim) (dr sr : Reg) (op2 : ImmOrReg 5)
+theorem step_and (QS : QuietSet Q) (s : Sim) (q_s : Q s.dev) (dr sr : Reg) (op2 : ImmOrReg 5)
     (hs : s.flags.strict = false) (hp : PSR.privileged s.psr = true) (hpc : s.pc.toNat < IO_START)
     (hd : SimInstr.decode (s.memAt s.pc).data = .ok (.and dr sr op2)) :
-    ∃ t, fetchExec s = (.ok (), t) ∧ t.pc = s.pc + 1 ∧ (t.reg dr).data = (s.reg sr).data &&& (s.operand2 op2).data ∧
+    ∃ t, Sim.step s = (.ok (), t) ∧ t.pc = s.pc + 1 ∧ (t.reg dr).data = (s.reg sr).data &&& (s.operand2 op2).data ∧
       (∀ r, r ≠ dr → t.reg r = s.reg r) ∧ t.psr = ccOf s.psr ((s.reg sr).data &&& (s.operand2 op2).data) ∧
-      t.dev = s.dev ∧ ctl t = ctl s ∧ t.mem = s.mem := by
+      t.dev = s.dev ∧ ctl t = ctl s ∧ t.mem = s.mem ∧ Q t.dev := by
   have hx := C08.exec_and (fetched s) dr sr op2 hs
-  refine ⟨_, fetchExec_of_exec s _ _ hs hp hpc hd hx, rfl, ?_, ?_, rfl, rfl, rfl, rfl⟩
+  refine ⟨_, step_of_exec QS s _ _ hs hp hpc hd q_s hx, rfl, ?_, ?_, rfl, rfl, rfl, rfl, q_s⟩
   · show ((Sim.setReg (fetched s) dr _).reg dr).data = _
     rw [Sim.reg_setReg, if_pos rfl]; rfl
   · intro r hr
@@ -42,16 +53,16 @@ theorem step_and (s : Sim) (dr sr : Reg) (op2 : ImmOrReg 5)
     rw [Sim.reg_setReg, if_neg (Ne.symm hr)]; rfl
 
 /-- one supervisor step: `ADD dr, sr1, sr2` (register operand, data path) -/
-theorem step_add_reg (s : Sim) (dr sr1 sr2 : Reg)
+theorem step_add_reg (QS : QuietSet Q) (s : Sim) (q_s : Q s.dev) (dr sr1 sr2 : Reg)
     (hs : s.flags.strict = false) (hp : PSR.privileged s.psr = true) (hpc : s.pc.toNat < IO_START)
     (hd : SimInstr.decode (s.memAt s.pc).data = .ok (.add dr sr1 (.reg sr2))) :
-    ∃ t, fetchExec s = (.ok (), t) ∧ t.pc = s.pc + 1 ∧ (t.reg dr).data = (s.reg sr1).data + (s.reg sr2).data ∧
+    ∃ t, Sim.step s = (.ok (), t) ∧ t.pc = s.pc + 1 ∧ (t.reg dr).data = (s.reg sr1).data + (s.reg sr2).data ∧
       (∀ r, r ≠ dr → t.reg r = s.reg r) ∧ t.psr = ccOf s.psr ((s.reg sr1).data + (s.reg sr2).data) ∧
-      t.dev = s.dev ∧ ctl t = ctl s ∧ t.mem = s.mem := by
+      t.dev = s.dev ∧ ctl t = ctl s ∧ t.mem = s.mem ∧ Q t.dev := by
   have hx := C08.exec_add (fetched s) dr sr1 (.reg sr2) hs
   have hdat : (Word.add ((fetched s).reg sr1) ((fetched s).operand2 (.reg sr2))).data =
       (s.reg sr1).data + (s.reg sr2).data := by rw [C08.add_data]; rfl
-  refine ⟨_, fetchExec_of_exec s _ _ hs hp hpc hd hx, rfl, ?_, ?_, ?_, rfl, rfl, rfl⟩
+  refine ⟨_, step_of_exec QS s _ _ hs hp hpc hd q_s hx, rfl, ?_, ?_, ?_, rfl, rfl, rfl, q_s⟩
   · show ((Sim.setReg (fetched s) dr _).reg dr).data = _
     rw [Sim.reg_setReg, if_pos rfl, hdat]
   · intro r hr
@@ -168,22 +179,22 @@ theorem chkPutsp_spec {a : Nat} (h : chkPutsp a = true) :
   · cases ha
 
 /-- `ADD R6,R6,#-1 ; STR k,R6,#0` -/
-theorem push_reg (y : Sim) (k : Reg) (hk : k ≠ 6) (hy : InOs y) (hpc : y.pc.toNat + 1 < IO_START)
+theorem push_reg (QS : QuietSet Q) (y : Sim) (k : Reg) (hk : k ≠ 6) (hy : InOsQ Q y) (hpc : y.pc.toNat + 1 < IO_START)
     (hd0 : SimInstr.decode (y.memAt y.pc).data = .ok (.add 6 6 (.imm 0x1F)))
     (hd1 : SimInstr.decode (y.memAt (y.pc + 1)).data = .ok (.str k 6 0))
     (hc : 767 ≤ ((y.reg R6).data - 1).toNat ∧ ((y.reg R6).data - 1).toNat < IO_START) :
-    ∃ t, feN 2 y = (.ok (), t) ∧ InOs t ∧ t.pc = y.pc + 2 ∧ (t.reg R6).data = (y.reg R6).data - 1 ∧
+    ∃ t, feN 2 y = (.ok (), t) ∧ InOsQ Q t ∧ t.pc = y.pc + 2 ∧ (t.reg R6).data = (y.reg R6).data - 1 ∧
       t.memAt ((y.reg R6).data - 1) = y.reg k ∧ (∀ a, a ≠ (y.reg R6).data - 1 → t.memAt a = y.memAt a) ∧
       (∀ r, r ≠ R6 → t.reg r = y.reg r) ∧ t.dev = y.dev ∧ ctl t = ctl y ∧
       PSR.priority t.psr = PSR.priority y.psr := by
-  obtain ⟨t1, f1, pc1, r61, ro1, psr1, dev1, ctl1, mem1⟩ := step_add_imm y 6 6 0x1F hy.nonstrict hy.sup (by omega) hd0
+  obtain ⟨t1, f1, pc1, r61, ro1, psr1, dev1, ctl1, mem1, q_t1⟩ := step_add_imm QS y hy.q 6 6 0x1F hy.nonstrict hy.sup (by omega) hd0
   have sup1 : PSR.privileged t1.psr = true := by rw [psr1, sup_ccOf]; exact hy.sup
-  have in1 : InOs t1 := hy.step (fun a _ => by rw [Sim.memAt, mem1]) ctl1 sup1
+  have in1 : InOs t1 := hy.toInOs.step (fun a _ => by rw [Sim.memAt, mem1]) ctl1 sup1
   have sp1 : (t1.reg 6).data = (y.reg R6).data - 1 := by
     rw [r61, sext_m1]; show (y.reg R6).data + 0xFFFF = _; exact add_m1 _
   have ea1 : (t1.reg 6).data + (0 : BitVec 6).signExtend 16 = (y.reg R6).data - 1 := by
     rw [sext_0, sp1]; exact BitVec.add_zero _
-  obtain ⟨t2, f2, pc2, r2, psr2, dev2, ctl2, cell2, mem2⟩ := step_str t1 k 6 0 in1.nonstrict sup1
+  obtain ⟨t2, f2, pc2, r2, psr2, dev2, ctl2, cell2, mem2, q_t2⟩ := step_str QS t1 q_t1 k 6 0 in1.nonstrict sup1
     (by rw [pc1]; exact lt_succ_io hpc) (by rw [pc1, Sim.memAt, mem1]; exact hd1) (by rw [ea1]; exact hc.2)
   rw [ea1] at cell2 mem2
   have regs2 : ∀ r, t2.reg r = t1.reg r := fun r => by show t2.regs[r.toNat] = _; rw [r2]
@@ -191,31 +202,31 @@ theorem push_reg (y : Sim) (k : Reg) (hk : k ≠ 6) (hy : InOs y) (hpc : y.pc.to
   have m2 : ∀ a : W, a ≠ (y.reg R6).data - 1 → t2.memAt a = y.memAt a := by
     intro a hne; rw [mem2 a hne, Sim.memAt, mem1]
   refine ⟨t2, by rw [feN_succ 1 f1, feN_succ 0 f2]; rfl,
-    hy.of_cell _ hc.1 (fun a _ hne => m2 a hne) (ctl2.trans ctl1) sup2, by rw [pc2, pc1]; exact add_1_1 _,
+    ⟨hy.toInOs.of_cell _ hc.1 (fun a _ hne => m2 a hne) (ctl2.trans ctl1) sup2, q_t2⟩, by rw [pc2, pc1]; exact add_1_1 _,
     by rw [regs2]; exact sp1, by rw [cell2, ro1 k hk], m2, fun r hr => by rw [regs2, ro1 r hr],
     by rw [dev2, dev1], ctl2.trans ctl1, by rw [psr2, psr1, prio_ccOf]⟩
 
 /-- `LDR k,R6,#0 ; ADD R6,R6,#1` -/
-theorem pop_reg (y : Sim) (k : Reg) (hk : k ≠ 6) (hy : InOs y) (hpc : y.pc.toNat + 1 < IO_START)
+theorem pop_reg (QS : QuietSet Q) (y : Sim) (k : Reg) (hk : k ≠ 6) (hy : InOsQ Q y) (hpc : y.pc.toNat + 1 < IO_START)
     (hd0 : SimInstr.decode (y.memAt y.pc).data = .ok (.ldr k 6 0))
     (hd1 : SimInstr.decode (y.memAt (y.pc + 1)).data = .ok (.add 6 6 (.imm 1)))
     (hc : ((y.reg R6).data).toNat < IO_START) :
-    ∃ t, feN 2 y = (.ok (), t) ∧ InOs t ∧ t.pc = y.pc + 2 ∧ (t.reg R6).data = (y.reg R6).data + 1 ∧
+    ∃ t, feN 2 y = (.ok (), t) ∧ InOsQ Q t ∧ t.pc = y.pc + 2 ∧ (t.reg R6).data = (y.reg R6).data + 1 ∧
       t.reg k = y.memAt (y.reg R6).data ∧ t.mem = y.mem ∧
       (∀ r, r ≠ R6 → r ≠ k → t.reg r = y.reg r) ∧ t.dev = y.dev ∧ ctl t = ctl y ∧
       PSR.priority t.psr = PSR.priority y.psr := by
   have ea : (y.reg 6).data + (0 : BitVec 6).signExtend 16 = (y.reg R6).data := by
     rw [sext_0]; exact BitVec.add_zero _
-  obtain ⟨t1, f1, pc1, rk1, ro1, psr1, dev1, ctl1, mem1⟩ := step_ldr y k 6 0 hy.nonstrict hy.sup (by omega) hd0
+  obtain ⟨t1, f1, pc1, rk1, ro1, psr1, dev1, ctl1, mem1, q_t1⟩ := step_ldr QS y hy.q k 6 0 hy.nonstrict hy.sup (by omega) hd0
     (by rw [ea]; exact hc)
   rw [ea] at rk1
   have sup1 : PSR.privileged t1.psr = true := by rw [psr1, sup_ccOf]; exact hy.sup
-  have in1 : InOs t1 := hy.step (fun a _ => by rw [Sim.memAt, mem1]) ctl1 sup1
-  obtain ⟨t2, f2, pc2, r62, ro2, psr2, dev2, ctl2, mem2⟩ := step_add_imm t1 6 6 1 in1.nonstrict sup1
+  have in1 : InOs t1 := hy.toInOs.step (fun a _ => by rw [Sim.memAt, mem1]) ctl1 sup1
+  obtain ⟨t2, f2, pc2, r62, ro2, psr2, dev2, ctl2, mem2, q_t2⟩ := step_add_imm QS t1 q_t1 6 6 1 in1.nonstrict sup1
     (by rw [pc1]; exact lt_succ_io hpc) (by rw [pc1, Sim.memAt, mem1]; exact hd1)
   have sup2 : PSR.privileged t2.psr = true := by rw [psr2, sup_ccOf]; exact sup1
   refine ⟨t2, by rw [feN_succ 1 f1, feN_succ 0 f2]; rfl,
-    in1.step (fun a _ => by rw [Sim.memAt, mem2]) ctl2 sup2, by rw [pc2, pc1]; exact add_1_1 _, ?_,
+    ⟨in1.step (fun a _ => by rw [Sim.memAt, mem2]) ctl2 sup2, q_t2⟩, by rw [pc2, pc1]; exact add_1_1 _, ?_,
     by rw [ro2 k hk]; exact rk1, by rw [mem2, mem1], fun r h6 hk' => by rw [ro2 r h6, ro1 r hk'],
     by rw [dev2, dev1], ctl2.trans ctl1, by rw [psr2, prio_ccOf, psr1, prio_ccOf]⟩
   show (t2.reg 6).data = _
@@ -249,8 +260,8 @@ def Cells7Ok (xsp : W) : Prop :=
 
 /-- inside PUTSP, relative to the routine's entry state `x`: R0-R3 saved below the entry R6, R1 = string pointer `q`;
     R0, R2, R3 are scratch -/
-structure PIn (x y : Sim) (q : W) : Prop where
-  inos : InOs y
+structure PIn (Q : DevHandler → Prop) (x y : Sim) (q : W) : Prop where
+  inos : InOsQ Q y
   sp : (y.reg R6).data = (x.reg R6).data - 4
   c0 : y.memAt ((x.reg R6).data - 1) = x.reg 0
   c1 : y.memAt ((x.reg R6).data - 2) = x.reg 1
@@ -275,9 +286,9 @@ theorem Scr.trans {a b c : Sim} (h1 : Scr a b) (h2 : Scr b c) : Scr a c :=
   ⟨h2.dev.trans h1.dev, h2.ctl.trans h1.ctl, h2.mem.trans h1.mem,
    fun r n0 n2 n3 => (h2.regs r n0 n2 n3).trans (h1.regs r n0 n2 n3), h2.sup, h2.prio.trans h1.prio⟩
 
-theorem PIn.scr {x y t : Sim} {q : W} (h : PIn x y q) (s : Scr y t) : PIn x t q := by
+theorem PIn.scr {x y t : Sim} {q : W} (h : PIn Q x y q) (s : Scr y t) : PIn Q x t q := by
   have hm : ∀ a, t.memAt a = y.memAt a := fun a => by rw [Sim.memAt, s.mem]
-  exact ⟨h.inos.step (fun a _ => hm a) s.ctl s.sup, by rw [s.regs R6 (by decide) (by decide) (by decide)]; exact h.sp,
+  exact ⟨h.inos.step' (fun a _ => hm a) s.ctl s.sup s.dev, by rw [s.regs R6 (by decide) (by decide) (by decide)]; exact h.sp,
     by rw [hm]; exact h.c0, by rw [hm]; exact h.c1, by rw [hm]; exact h.c2, by rw [hm]; exact h.c3,
     by rw [s.regs 1 (by decide) (by decide) (by decide)]; exact h.r1,
     fun r n0 n1 n2 n3 n6 => by rw [s.regs r n0 n2 n3]; exact h.regs r n0 n1 n2 n3 n6,
@@ -285,19 +296,19 @@ theorem PIn.scr {x y t : Sim} {q : W} (h : PIn x y q) (s : Scr y t) : PIn x t q 
 
 
 /-- `step_br` with the memory unchanged as an equation -/
-theorem step_br' (s : Sim) (cc : BitVec 3) (off : BitVec 9)
+theorem step_br' (QS : QuietSet Q) (s : Sim) (q_s : Q s.dev) (cc : BitVec 3) (off : BitVec 9)
     (hs : s.flags.strict = false) (hp : PSR.privileged s.psr = true) (hpc : s.pc.toNat < IO_START)
     (hd : SimInstr.decode (s.memAt s.pc).data = .ok (.br cc off)) :
-    ∃ t, fetchExec s = (.ok (), t) ∧
+    ∃ t, Sim.step s = (.ok (), t) ∧
       t.pc = (if (cc.setWidth 16 &&& PSR.cc s.psr) ≠ 0 then s.pc + 1 + off.signExtend 16 else s.pc + 1) ∧
-      t.regs = s.regs ∧ t.psr = s.psr ∧ t.dev = s.dev ∧ ctl t = ctl s ∧ t.mem = s.mem := by
+      t.regs = s.regs ∧ t.psr = s.psr ∧ t.dev = s.dev ∧ ctl t = ctl s ∧ t.mem = s.mem ∧ Q t.dev := by
   have hx := C08.exec_br (fetched s) cc off hs
   have hcc : PSR.cc (fetched s).psr = PSR.cc s.psr := rfl
-  refine ⟨_, fetchExec_of_exec s _ _ hs hp hpc hd hx, ?_⟩
+  refine ⟨_, step_of_exec QS s _ _ hs hp hpc hd q_s hx, ?_⟩
   rw [hcc]
   by_cases hb : (cc.setWidth 16 &&& PSR.cc s.psr) ≠ 0
-  · simp only [if_pos hb]; exact ⟨rfl, rfl, rfl, rfl, rfl, rfl⟩
-  · simp only [if_neg hb]; exact ⟨rfl, rfl, rfl, rfl, rfl, rfl⟩
+  · simp only [if_pos hb]; exact ⟨rfl, rfl, rfl, rfl, rfl, rfl, q_s⟩
+  · simp only [if_neg hb]; exact ⟨rfl, rfl, rfl, rfl, rfl, rfl, q_s⟩
 
 theorem Scr.of {y t : Sim} (dr : Reg) (hdr : dr = 0 ∨ dr = 2 ∨ dr = 3) (hsup : PSR.privileged y.psr = true) (v : W)
     (ro : ∀ r, r ≠ dr → t.reg r = y.reg r) (psr : t.psr = ccOf y.psr v) (dev : t.dev = y.dev)
@@ -312,46 +323,46 @@ theorem Scr.of_br {y t : Sim} (hsup : PSR.privileged y.psr = true) (regs : t.reg
 theorem Scr.refl (y : Sim) (h : PSR.privileged y.psr = true) : Scr y y := ⟨rfl, rfl, rfl, fun _ _ _ _ => rfl, h, rfl⟩
 
 
-theorem InOs.scr {y t : Sim} (h : InOs y) (s : Scr y t) : InOs t :=
-  h.step (fun a _ => by rw [Sim.memAt, s.mem]) s.ctl s.sup
+theorem InOsQ.scr {y t : Sim} (h : InOsQ Q y) (s : Scr y t) : InOsQ Q t :=
+  ⟨h.toInOs.step (fun a _ => by rw [Sim.memAt, s.mem]) s.ctl s.sup, by rw [s.dev]; exact h.q⟩
 
 /-! one-step wrappers for an instruction cell of the OS image at the PC -/
 
-theorem os_add_imm {y : Sim} (hy : InOs y) {n : Nat} (hpc : y.pc = BitVec.ofNat 16 n) {dr sr : Reg} {imm : BitVec 5}
+theorem os_add_imm (QS : QuietSet Q) {y : Sim} (hy : InOsQ Q y) {n : Nat} (hpc : y.pc = BitVec.ofNat 16 n) {dr sr : Reg} {imm : BitVec 5}
     (hd : dec n = some (.add dr sr (.imm imm))) :
-    ∃ t, fetchExec y = (.ok (), t) ∧ t.pc = BitVec.ofNat 16 (n + 1) ∧
+    ∃ t, Sim.step y = (.ok (), t) ∧ t.pc = BitVec.ofNat 16 (n + 1) ∧
       (t.reg dr).data = (y.reg sr).data + imm.signExtend 16 ∧ (∀ r, r ≠ dr → t.reg r = y.reg r) ∧
       t.psr = ccOf y.psr ((y.reg sr).data + imm.signExtend 16) ∧ t.dev = y.dev ∧ ctl t = ctl y ∧ t.mem = y.mem := by
   obtain ⟨hdd, l⟩ := hy.os.decode hd hpc
-  obtain ⟨t, f, pc, a1, a2, a3, a4, a5, a6⟩ := step_add_imm y dr sr imm hy.nonstrict hy.sup (by unfold IO_START; omega) hdd
+  obtain ⟨t, f, pc, a1, a2, a3, a4, a5, a6, q_t⟩ := step_add_imm QS y hy.q dr sr imm hy.nonstrict hy.sup (by unfold IO_START; omega) hdd
   exact ⟨t, f, by rw [pc, hpc, ofNat_succ], a1, a2, a3, a4, a5, a6⟩
 
-theorem os_add_reg {y : Sim} (hy : InOs y) {n : Nat} (hpc : y.pc = BitVec.ofNat 16 n) {dr sr1 sr2 : Reg}
+theorem os_add_reg (QS : QuietSet Q) {y : Sim} (hy : InOsQ Q y) {n : Nat} (hpc : y.pc = BitVec.ofNat 16 n) {dr sr1 sr2 : Reg}
     (hd : dec n = some (.add dr sr1 (.reg sr2))) :
-    ∃ t, fetchExec y = (.ok (), t) ∧ t.pc = BitVec.ofNat 16 (n + 1) ∧
+    ∃ t, Sim.step y = (.ok (), t) ∧ t.pc = BitVec.ofNat 16 (n + 1) ∧
       (t.reg dr).data = (y.reg sr1).data + (y.reg sr2).data ∧ (∀ r, r ≠ dr → t.reg r = y.reg r) ∧
       t.psr = ccOf y.psr ((y.reg sr1).data + (y.reg sr2).data) ∧ t.dev = y.dev ∧ ctl t = ctl y ∧ t.mem = y.mem := by
   obtain ⟨hdd, l⟩ := hy.os.decode hd hpc
-  obtain ⟨t, f, pc, a1, a2, a3, a4, a5, a6⟩ := step_add_reg y dr sr1 sr2 hy.nonstrict hy.sup (by unfold IO_START; omega) hdd
+  obtain ⟨t, f, pc, a1, a2, a3, a4, a5, a6, q_t⟩ := step_add_reg QS y hy.q dr sr1 sr2 hy.nonstrict hy.sup (by unfold IO_START; omega) hdd
   exact ⟨t, f, by rw [pc, hpc, ofNat_succ], a1, a2, a3, a4, a5, a6⟩
 
-theorem os_and {y : Sim} (hy : InOs y) {n : Nat} (hpc : y.pc = BitVec.ofNat 16 n) {dr sr : Reg} {op2 : ImmOrReg 5}
+theorem os_and (QS : QuietSet Q) {y : Sim} (hy : InOsQ Q y) {n : Nat} (hpc : y.pc = BitVec.ofNat 16 n) {dr sr : Reg} {op2 : ImmOrReg 5}
     (hd : dec n = some (.and dr sr op2)) :
-    ∃ t, fetchExec y = (.ok (), t) ∧ t.pc = BitVec.ofNat 16 (n + 1) ∧
+    ∃ t, Sim.step y = (.ok (), t) ∧ t.pc = BitVec.ofNat 16 (n + 1) ∧
       (t.reg dr).data = (y.reg sr).data &&& (y.operand2 op2).data ∧ (∀ r, r ≠ dr → t.reg r = y.reg r) ∧
       t.psr = ccOf y.psr ((y.reg sr).data &&& (y.operand2 op2).data) ∧ t.dev = y.dev ∧ ctl t = ctl y ∧
       t.mem = y.mem := by
   obtain ⟨hdd, l⟩ := hy.os.decode hd hpc
-  obtain ⟨t, f, pc, a1, a2, a3, a4, a5, a6⟩ := step_and y dr sr op2 hy.nonstrict hy.sup (by unfold IO_START; omega) hdd
+  obtain ⟨t, f, pc, a1, a2, a3, a4, a5, a6, q_t⟩ := step_and QS y hy.q dr sr op2 hy.nonstrict hy.sup (by unfold IO_START; omega) hdd
   exact ⟨t, f, by rw [pc, hpc, ofNat_succ], a1, a2, a3, a4, a5, a6⟩
 
-theorem os_br {y : Sim} (hy : InOs y) {n : Nat} (hpc : y.pc = BitVec.ofNat 16 n) {cc : BitVec 3} {off : BitVec 9}
+theorem os_br (QS : QuietSet Q) {y : Sim} (hy : InOsQ Q y) {n : Nat} (hpc : y.pc = BitVec.ofNat 16 n) {cc : BitVec 3} {off : BitVec 9}
     (hd : dec n = some (.br cc off)) :
-    ∃ t, fetchExec y = (.ok (), t) ∧
+    ∃ t, Sim.step y = (.ok (), t) ∧
       t.pc = (if (cc.setWidth 16 &&& PSR.cc y.psr) ≠ 0 then BitVec.ofNat 16 (rel9 n off) else BitVec.ofNat 16 (n + 1)) ∧
       t.regs = y.regs ∧ t.psr = y.psr ∧ t.dev = y.dev ∧ ctl t = ctl y ∧ t.mem = y.mem := by
   obtain ⟨hdd, l⟩ := hy.os.decode hd hpc
-  obtain ⟨t, f, pc, a1, a2, a3, a4, a5⟩ := step_br' y cc off hy.nonstrict hy.sup (by unfold IO_START; omega) hdd
+  obtain ⟨t, f, pc, a1, a2, a3, a4, a5, q_t⟩ := step_br' QS y hy.q cc off hy.nonstrict hy.sup (by unfold IO_START; omega) hdd
   refine ⟨t, f, ?_, a1, a2, a3, a4, a5⟩
   rw [pc, hpc, ofNat_succ, ofNat_rel9]
 
@@ -367,7 +378,7 @@ theorem sext5_0 : (0 : BitVec 5).signExtend 16 = 0 := by decide
 theorem add_zero' (a : W) : a + 0 = a := BitVec.add_zero a
 
 /-- one round of PUTSP's shift loop (counter positive) -/
-theorem shift_round (y : Sim) (hy : InOs y) (r0 r2 r3 : W) (hat : AtP y 17 r0 r2 r3)
+theorem shift_round (QS : QuietSet Q) (y : Sim) (hy : InOsQ Q y) (r0 r2 r3 : W) (hat : AtP y 17 r0 r2 r3)
     (hpos : r3.msb = false) (hnz : r3 ≠ 0) :
     ∃ k t, feN k y = (.ok (), t) ∧ Scr y t ∧
       AtP t 17 (shiftRound (r0, r2)).1 (shiftRound (r0, r2)).2 (r3 - 1) := by
@@ -375,12 +386,12 @@ theorem shift_round (y : Sim) (hy : InOs y) (r0 r2 r3 : W) (hat : AtP y 17 r0 r2
     ⟨d0, d1, d2, d3, d4, d5, hos, hol⟩, _, _⟩ := chkPutsp_spec putsp_listing
   obtain ⟨hpc, h0, h2, h3⟩ := hat
   -- a+17: ADD R3,R3,#0
-  obtain ⟨t1, f1, pc1, r31, ro1, psr1, dev1, ctl1, mem1⟩ := os_add_imm hy hpc c3
+  obtain ⟨t1, f1, pc1, r31, ro1, psr1, dev1, ctl1, mem1⟩ := os_add_imm QS hy hpc c3
   have s1 : Scr y t1 := Scr.of 3 (by decide) hy.sup _ ro1 psr1 dev1 ctl1 mem1
   rw [sext5_0, add_zero', h3] at r31 psr1
   have i1 := hy.scr s1
   -- a+18: BRnz (not taken)
-  obtain ⟨t2, f2, pc2, r2', psr2, dev2, ctl2, mem2⟩ := os_br i1 pc1 c4
+  obtain ⟨t2, f2, pc2, r2', psr2, dev2, ctl2, mem2⟩ := os_br QS i1 pc1 c4
   have nt : ¬ (((6 : BitVec 3).setWidth 16) &&& PSR.cc t1.psr) ≠ 0 := by
     rw [psr1, brnz_ccOf]; intro h; rcases h with h | h
     · rw [hpos] at h; cases h
@@ -389,18 +400,18 @@ theorem shift_round (y : Sim) (hy : InOs y) (r0 r2 r3 : W) (hat : AtP y 17 r0 r2
   have s2 : Scr t1 t2 := Scr.of_br i1.sup r2' psr2 dev2 ctl2 mem2
   have i2 := i1.scr s2
   -- a+19: ADD R0,R0,R0
-  obtain ⟨t3, f3, pc3, r03, ro3, psr3, dev3, ctl3, mem3⟩ := os_add_reg i2 pc2 c5
+  obtain ⟨t3, f3, pc3, r03, ro3, psr3, dev3, ctl3, mem3⟩ := os_add_reg QS i2 pc2 c5
   have s3 : Scr t2 t3 := Scr.of 0 (by decide) i2.sup _ ro3 psr3 dev3 ctl3 mem3
   have i3 := i2.scr s3
   rw [regs_eq r2', ro1 0 (by decide), h0] at r03
   -- a+20: ADD R2,R2,#0
-  obtain ⟨t4, f4, pc4, r24, ro4, psr4, dev4, ctl4, mem4⟩ := os_add_imm i3 pc3 d0
+  obtain ⟨t4, f4, pc4, r24, ro4, psr4, dev4, ctl4, mem4⟩ := os_add_imm QS i3 pc3 d0
   have s4 : Scr t3 t4 := Scr.of 2 (by decide) i3.sup _ ro4 psr4 dev4 ctl4 mem4
   have i4 := i3.scr s4
   have e2 : (t3.reg 2).data = r2 := by rw [ro3 2 (by decide), regs_eq r2', ro1 2 (by decide), h2]
   rw [sext5_0, add_zero', e2] at r24 psr4
   -- a+21: BRzp
-  obtain ⟨t5, f5, pc5, r5', psr5, dev5, ctl5, mem5⟩ := os_br i4 pc4 d1
+  obtain ⟨t5, f5, pc5, r5', psr5, dev5, ctl5, mem5⟩ := os_br QS i4 pc4 d1
   have s5 : Scr t4 t5 := Scr.of_br i4.sup r5' psr5 dev5 ctl5 mem5
   have i5 := i4.scr s5
   have s15 : Scr y t5 := s1.trans (s2.trans (s3.trans (s4.trans s5)))
@@ -411,17 +422,17 @@ theorem shift_round (y : Sim) (hy : InOs y) (r0 r2 r3 : W) (hat : AtP y 17 r0 r2
   have f15 : feN 5 y = (.ok (), t5) := by
     rw [feN_succ 4 f1, feN_succ 3 f2, feN_succ 2 f3, feN_succ 1 f4, feN_succ 0 f5]; rfl
   -- the tail a+23 .. a+25 from a state with R0 = v
-  have tail : ∀ (u : Sim) (v : W), InOs u → u.pc = BitVec.ofNat 16 (vec 0x24 + 23) → (u.reg 0).data = v →
+  have tail : ∀ (u : Sim) (v : W), InOsQ Q u → u.pc = BitVec.ofNat 16 (vec 0x24 + 23) → (u.reg 0).data = v →
       (u.reg 2).data = r2 → (u.reg 3).data = r3 →
       ∃ t, feN 3 u = (.ok (), t) ∧ Scr u t ∧ AtP t 17 v (r2 + r2) (r3 - 1) := by
     intro u v iu upc u0 u2 u3
-    obtain ⟨t6, f6, pc6, r26, ro6, psr6, dev6, ctl6, mem6⟩ := os_add_reg iu upc d3
+    obtain ⟨t6, f6, pc6, r26, ro6, psr6, dev6, ctl6, mem6⟩ := os_add_reg QS iu upc d3
     have s6 : Scr u t6 := Scr.of 2 (by decide) iu.sup _ ro6 psr6 dev6 ctl6 mem6
     have i6 := iu.scr s6
-    obtain ⟨t7, f7, pc7, r37, ro7, psr7, dev7, ctl7, mem7⟩ := os_add_imm i6 pc6 d4
+    obtain ⟨t7, f7, pc7, r37, ro7, psr7, dev7, ctl7, mem7⟩ := os_add_imm QS i6 pc6 d4
     have s7 : Scr t6 t7 := Scr.of 3 (by decide) i6.sup _ ro7 psr7 dev7 ctl7 mem7
     have i7 := i6.scr s7
-    obtain ⟨t8, f8, pc8, r8', psr8, dev8, ctl8, mem8⟩ := os_br i7 pc7 d5
+    obtain ⟨t8, f8, pc8, r8', psr8, dev8, ctl8, mem8⟩ := os_br QS i7 pc7 d5
     have tk : (((7 : BitVec 3).setWidth 16) &&& PSR.cc t7.psr) ≠ 0 := by rw [psr7]; exact br7_ccOf _ _
     rw [if_pos tk, hol] at pc8
     have s8 : Scr t7 t8 := Scr.of_br i7.sup r8' psr8 dev8 ctl8 mem8
@@ -440,7 +451,7 @@ theorem shift_round (y : Sim) (hy : InOs y) (r0 r2 r3 : W) (hat : AtP y 17 r0 r2
     have ntk : ¬ (((3 : BitVec 3).setWidth 16) &&& PSR.cc t4.psr) ≠ 0 := by
       rw [psr4, brzp_ccOf, hm]; simp
     rw [if_neg ntk] at pc5
-    obtain ⟨t6, f6, pc6, r06, ro6, psr6, dev6, ctl6, mem6⟩ := os_add_imm i5 pc5 d2
+    obtain ⟨t6, f6, pc6, r06, ro6, psr6, dev6, ctl6, mem6⟩ := os_add_imm QS i5 pc5 d2
     have s6 : Scr t5 t6 := Scr.of 0 (by decide) i5.sup _ ro6 psr6 dev6 ctl6 mem6
     have i6 := i5.scr s6
     rw [e05, sext_1] at r06
@@ -451,16 +462,16 @@ theorem shift_round (y : Sim) (hy : InOs y) (r0 r2 r3 : W) (hat : AtP y 17 r0 r2
 
 
 /-- leaving the shift loop (counter zero) -/
-theorem shift_exit (y : Sim) (hy : InOs y) (r0 r2 : W) (hat : AtP y 17 r0 r2 0) :
+theorem shift_exit (QS : QuietSet Q) (y : Sim) (hy : InOsQ Q y) (r0 r2 : W) (hat : AtP y 17 r0 r2 0) :
     ∃ t, feN 2 y = (.ok (), t) ∧ Scr y t ∧ AtP t 26 r0 r2 0 := by
   obtain ⟨om, oe, ox, os, ol, oe2, ol2, _, _, _, _, _, _, _, _, _, _, ⟨_, _, _, c3, c4, c5, hox⟩, _, _, _⟩ :=
     chkPutsp_spec putsp_listing
   obtain ⟨hpc, h0, h2, h3⟩ := hat
-  obtain ⟨t1, f1, pc1, r31, ro1, psr1, dev1, ctl1, mem1⟩ := os_add_imm hy hpc c3
+  obtain ⟨t1, f1, pc1, r31, ro1, psr1, dev1, ctl1, mem1⟩ := os_add_imm QS hy hpc c3
   have s1 : Scr y t1 := Scr.of 3 (by decide) hy.sup _ ro1 psr1 dev1 ctl1 mem1
   rw [sext5_0, add_zero', h3] at r31 psr1
   have i1 := hy.scr s1
-  obtain ⟨t2, f2, pc2, r2', psr2, dev2, ctl2, mem2⟩ := os_br i1 pc1 c4
+  obtain ⟨t2, f2, pc2, r2', psr2, dev2, ctl2, mem2⟩ := os_br QS i1 pc1 c4
   have tk : (((6 : BitVec 3).setWidth 16) &&& PSR.cc t1.psr) ≠ 0 := by
     rw [psr1, brnz_ccOf]; exact Or.inr rfl
   rw [if_pos tk, hox] at pc2
@@ -476,17 +487,17 @@ theorem small_pos (m : Nat) (h : m + 1 ≤ 8) : (BitVec.ofNat 16 (m + 1)).msb = 
   rcases hm with h | h | h | h | h | h | h | h <;> subst h <;> decide
 
 /-- the whole shift loop from a counter `n ≤ 8` -/
-theorem shift_loop (n : Nat) : ∀ (y : Sim) (r0 r2 : W), InOs y → n ≤ 8 → AtP y 17 r0 r2 (BitVec.ofNat 16 n) →
+theorem shift_loop (QS : QuietSet Q) (n : Nat) : ∀ (y : Sim) (r0 r2 : W), InOsQ Q y → n ≤ 8 → AtP y 17 r0 r2 (BitVec.ofNat 16 n) →
     ∃ k t, feN k y = (.ok (), t) ∧ Scr y t ∧ AtP t 26 (rounds n (r0, r2)).1 (rounds n (r0, r2)).2 0 := by
   induction n with
   | zero =>
     intro y r0 r2 hy _ hat
-    obtain ⟨t, ft, st, at'⟩ := shift_exit y hy r0 r2 hat
+    obtain ⟨t, ft, st, at'⟩ := shift_exit QS y hy r0 r2 hat
     exact ⟨2, t, ft, st, at'⟩
   | succ m ih =>
     intro y r0 r2 hy hn hat
     obtain ⟨p1, p2, p3⟩ := small_pos m hn
-    obtain ⟨k1, t1, f1, s1, a1⟩ := shift_round y hy r0 r2 _ hat p1 p2
+    obtain ⟨k1, t1, f1, s1, a1⟩ := shift_round QS y hy r0 r2 _ hat p1 p2
     rw [p3] at a1
     obtain ⟨k2, t2, f2, s2, a2⟩ := ih t1 _ _ (hy.scr s1) (by omega) a1
     exact ⟨k1 + k2, t2, by rw [feN_add k1 k2 f1]; exact f2, s1.trans s2, a2⟩
@@ -497,55 +508,55 @@ theorem and_zero' (a : W) : a &&& 0 = 0 := by simp
 theorem zero_add' (a : W) : 0 + a = a := by simp
 
 /-- a+14 .. a+26: the high byte of R2 into R0 -/
-theorem hi_byte (y : Sim) (hy : InOs y) (r0 w r3 : W) (hat : AtP y 14 r0 w r3) :
+theorem hi_byte (QS : QuietSet Q) (y : Sim) (hy : InOsQ Q y) (r0 w r3 : W) (hat : AtP y 14 r0 w r3) :
     ∃ (k : Nat) (t : Sim) (r2' : W), feN k y = (.ok (), t) ∧ Scr y t ∧ AtP t 26 (w >>> 8) r2' 0 := by
   obtain ⟨om, oe, ox, os, ol, oe2, ol2, _, _, _, _, _, _, _, _, _, _, ⟨c0, c1, c2, _, _, _, _⟩, _, _, _⟩ :=
     chkPutsp_spec putsp_listing
   obtain ⟨hpc, h0, h2, h3⟩ := hat
-  obtain ⟨t1, f1, pc1, r01, ro1, psr1, dev1, ctl1, mem1⟩ := os_and hy hpc c0
+  obtain ⟨t1, f1, pc1, r01, ro1, psr1, dev1, ctl1, mem1⟩ := os_and QS hy hpc c0
   have s1 : Scr y t1 := Scr.of 0 (by decide) hy.sup _ ro1 psr1 dev1 ctl1 mem1
   have e01 : (t1.reg 0).data = 0 := by
     rw [r01]; show (y.reg 0).data &&& (0 : BitVec 5).signExtend 16 = 0; rw [sext5_0, and_zero']
   have i1 := hy.scr s1
-  obtain ⟨t2, f2, pc2, r32, ro2, psr2, dev2, ctl2, mem2⟩ := os_and i1 pc1 c1
+  obtain ⟨t2, f2, pc2, r32, ro2, psr2, dev2, ctl2, mem2⟩ := os_and QS i1 pc1 c1
   have s2 : Scr t1 t2 := Scr.of 3 (by decide) i1.sup _ ro2 psr2 dev2 ctl2 mem2
   have e32 : (t2.reg 3).data = 0 := by
     rw [r32]; show (t1.reg 3).data &&& (0 : BitVec 5).signExtend 16 = 0; rw [sext5_0, and_zero']
   have i2 := i1.scr s2
-  obtain ⟨t3, f3, pc3, r33, ro3, psr3, dev3, ctl3, mem3⟩ := os_add_imm i2 pc2 c2
+  obtain ⟨t3, f3, pc3, r33, ro3, psr3, dev3, ctl3, mem3⟩ := os_add_imm QS i2 pc2 c2
   have s3 : Scr t2 t3 := Scr.of 3 (by decide) i2.sup _ ro3 psr3 dev3 ctl3 mem3
   have i3 := i2.scr s3
   rw [e32, sext5_8, zero_add'] at r33
   have at3 : AtP t3 17 0 w (BitVec.ofNat 16 8) :=
     ⟨pc3, by rw [ro3 0 (by decide), ro2 0 (by decide)]; exact e01,
      by rw [ro3 2 (by decide), ro2 2 (by decide), ro1 2 (by decide)]; exact h2, r33⟩
-  obtain ⟨k, t, ft, st, at'⟩ := shift_loop 8 t3 0 w i3 (by omega) at3
+  obtain ⟨k, t, ft, st, at'⟩ := shift_loop QS 8 t3 0 w i3 (by omega) at3
   rw [eight_rounds] at at'
   refine ⟨3 + k, t, _, ?_, s1.trans (s2.trans (s3.trans st)), at'⟩
   rw [feN_add 3 k (by rw [feN_succ 2 f1, feN_succ 1 f2, feN_succ 0 f3]; rfl)]; exact ft
 
 
-theorem os_ldr {y : Sim} (hy : InOs y) {n : Nat} (hpc : y.pc = BitVec.ofNat 16 n) {dr b : Reg}
+theorem os_ldr (QS : QuietSet Q) {y : Sim} (hy : InOsQ Q y) {n : Nat} (hpc : y.pc = BitVec.ofNat 16 n) {dr b : Reg}
     (hd : dec n = some (.ldr dr b 0)) (ha : ((y.reg b).data).toNat < IO_START) :
-    ∃ t, fetchExec y = (.ok (), t) ∧ t.pc = BitVec.ofNat 16 (n + 1) ∧ t.reg dr = y.memAt (y.reg b).data ∧
+    ∃ t, Sim.step y = (.ok (), t) ∧ t.pc = BitVec.ofNat 16 (n + 1) ∧ t.reg dr = y.memAt (y.reg b).data ∧
       (∀ r, r ≠ dr → t.reg r = y.reg r) ∧ t.psr = ccOf y.psr (y.memAt (y.reg b).data).data ∧ t.dev = y.dev ∧
       ctl t = ctl y ∧ t.mem = y.mem := by
   obtain ⟨hdd, l⟩ := hy.os.decode hd hpc
   have ea : (y.reg b).data + (0 : BitVec 6).signExtend 16 = (y.reg b).data := by rw [sext_0, add_zero']
-  obtain ⟨t, f, pc, a1, a2, a3, a4, a5, a6⟩ := step_ldr y dr b 0 hy.nonstrict hy.sup (by unfold IO_START; omega) hdd
+  obtain ⟨t, f, pc, a1, a2, a3, a4, a5, a6, q_t⟩ := step_ldr QS y hy.q dr b 0 hy.nonstrict hy.sup (by unfold IO_START; omega) hdd
     (by rw [ea]; exact ha)
   rw [ea] at a1 a3
   exact ⟨t, f, by rw [pc, hpc, ofNat_succ], a1, a2, a3, a4, a5, a6⟩
 
-theorem os_ld {y : Sim} (hy : InOs y) {n : Nat} (hpc : y.pc = BitVec.ofNat 16 n) {dr : Reg} {off : BitVec 9} {v : W}
+theorem os_ld (QS : QuietSet Q) {y : Sim} (hy : InOsQ Q y) {n : Nat} (hpc : y.pc = BitVec.ofNat 16 n) {dr : Reg} {off : BitVec 9} {v : W}
     (hd : dec n = some (.ld dr off)) (hv : osWord (rel9 n off) = some v) :
-    ∃ t, fetchExec y = (.ok (), t) ∧ t.pc = BitVec.ofNat 16 (n + 1) ∧ t.reg dr = Word.ofData v ∧
+    ∃ t, Sim.step y = (.ok (), t) ∧ t.pc = BitVec.ofNat 16 (n + 1) ∧ t.reg dr = Word.ofData v ∧
       (∀ r, r ≠ dr → t.reg r = y.reg r) ∧ t.psr = ccOf y.psr v ∧ t.dev = y.dev ∧
       ctl t = ctl y ∧ t.mem = y.mem := by
   obtain ⟨hdd, l⟩ := hy.os.decode hd hpc
   have ea : y.pc + 1 + off.signExtend 16 = BitVec.ofNat 16 (rel9 n off) := by rw [hpc, ofNat_succ, ofNat_rel9]
   have hl := osWord_lt hv
-  obtain ⟨t, f, pc, a1, a2, a3, a4, a5, a6⟩ := step_ld y dr off hy.nonstrict hy.sup (by unfold IO_START; omega) hdd
+  obtain ⟨t, f, pc, a1, a2, a3, a4, a5, a6, q_t⟩ := step_ld QS y hy.q dr off hy.nonstrict hy.sup (by unfold IO_START; omega) hdd
     (by rw [ea, BitVec.toNat_ofNat]; unfold IO_START; omega)
   rw [ea, hy.os _ _ hv] at a1 a3
   exact ⟨t, f, by rw [pc, hpc, ofNat_succ], a1, a2, a3, a4, a5, a6⟩
@@ -558,19 +569,19 @@ theorem cell7_ne (a : W) : a - 1 ≠ a - 5 ∧ a - 1 ≠ a - 6 ∧ a - 1 ≠ a -
   refine ⟨?_, ?_, ?_, ?_, ?_, ?_, ?_, ?_, ?_, ?_, ?_, ?_⟩ <;> (intro e; bv_omega)
 
 /-- a nested `TRAP x21` inside PUTSP: emits R0, keeps everything PUTSP relies on -/
-theorem pin_out (x y : Sim) (q : W) (hy : PIn x y q) (hc : Cells7Ok (x.reg R6).data) (n : Nat)
+theorem pin_out (QS : QuietSet Q) (x y : Sim) (q : W) (hy : PIn Q x y q) (hc : Cells7Ok (x.reg R6).data) (n : Nat)
     (hpc : y.pc = BitVec.ofNat 16 (vec 0x24 + n)) (hd : dec (vec 0x24 + n) = some (.trap 0x21))
     (l1 : y.iregLookup 0xFE04 = none) (l2 : y.iregLookup 0xFE06 = none)
     (np : Nat) (st : W) (ok : Bool) (d0 d1 d2 : DevHandler)
     (hp : Polls 0xFE04 y.dev np d0) (hr : d0.ioRead 0xFE04 true = (some st, d1)) (hst : st.msb = true)
     (hw : d1.ioWrite 0xFE06 (y.reg 0).data = (ok, d2)) :
-    ∃ t, feN (2 * np + 9) y = (.ok (), t) ∧ PIn x t q ∧ t.pc = BitVec.ofNat 16 (vec 0x24 + n + 1) ∧
+    ∃ t, feN (2 * np + 9) y = (.ok (), t) ∧ PIn Q x t q ∧ t.pc = BitVec.ofNat 16 (vec 0x24 + n + 1) ∧
       (∀ r, r ≠ R6 → t.reg r = y.reg r) ∧ t.psr = y.psr ∧ t.dev = d2 := by
   obtain ⟨k1, k2, k3, k4, k5, k6, k7⟩ := hc
   obtain ⟨s5, s6, s7⟩ := sub4k (x.reg R6).data
   obtain ⟨hdd, l⟩ := hy.inos.os.decode hd hpc
   have esp : entrySp y = (x.reg R6).data - 4 := by rw [entrySp_sup hy.inos.sup, hy.sp]
-  obtain ⟨f, ff, ret, fdev⟩ := out_trap y np hy.inos.os hy.inos.nonstrict
+  obtain ⟨f, ff, ret, fdev, q_f⟩ := out_trap QS y hy.inos.q np hy.inos.os hy.inos.nonstrict
     ⟨Or.inl (priv_ctx hy.inos.sup), by unfold IO_START; omega, hdd⟩
     (by rw [esp, s5]; exact k5) (by rw [esp, s6]; exact k6) (by rw [esp, s7]; exact k7)
     l1 l2 st ok d0 d1 d2 hp hr hst hw
@@ -590,7 +601,7 @@ theorem pin_out (x y : Sim) (q : W) (hy : PIn x y q) (hc : Cells7Ok (x.reg R6).d
     rw [fmem _ (by unfold IO_START; omega) (fun e => by rw [e] at hlt; unfold CellOk at k5; omega)
       (fun e => by rw [e] at hlt; unfold CellOk at k6; omega) (fun e => by rw [e] at hlt; unfold CellOk at k7; omega)]
     exact hy.inos.os a w ha
-  refine ⟨f, ff, ⟨inf, by rw [ret.sp]; exact hy.sp, ?_, ?_, ?_, ?_, by rw [fregs 1 (by decide)]; exact hy.r1,
+  refine ⟨f, ff, ⟨⟨inf, q_f⟩, by rw [ret.sp]; exact hy.sp, ?_, ?_, ?_, ?_, by rw [fregs 1 (by decide)]; exact hy.r1,
     fun r n0 n1 n2 n3 n6 => by rw [fregs r n6]; exact hy.regs r n0 n1 n2 n3 n6, fctl.trans hy.ctl, ?_,
     by rw [ret.psr]; exact hy.prio⟩, by rw [ret.pc, hpc, ofNat_succ], fregs, ret.psr, fdev⟩
   · rw [fmem _ k1.2 c15 c16 c17]; exact hy.c0
@@ -603,32 +614,33 @@ theorem pin_out (x y : Sim) (q : W) (hy : PIn x y q) (hc : Cells7Ok (x.reg R6).d
     exact hy.mem a ha hcell
 
 
-theorem PIn.setR1 {x y t : Sim} {q q' : W} (h : PIn x y q) (v : W) (ro : ∀ r, r ≠ 1 → t.reg r = y.reg r)
-    (r1 : (t.reg 1).data = q') (psr : t.psr = ccOf y.psr v) (ctl : Rt.ctl t = Rt.ctl y) (mem : t.mem = y.mem) :
-    PIn x t q' := by
+theorem PIn.setR1 {x y t : Sim} {q q' : W} (h : PIn Q x y q) (v : W) (ro : ∀ r, r ≠ 1 → t.reg r = y.reg r)
+    (r1 : (t.reg 1).data = q') (psr : t.psr = ccOf y.psr v) (ctl : Rt.ctl t = Rt.ctl y) (mem : t.mem = y.mem)
+    (dev : t.dev = y.dev) :
+    PIn Q x t q' := by
   have hm : ∀ a, t.memAt a = y.memAt a := fun a => by rw [Sim.memAt, mem]
   have sup : PSR.privileged t.psr = true := by rw [psr, sup_ccOf]; exact h.inos.sup
-  exact ⟨h.inos.step (fun a _ => hm a) ctl sup, by rw [ro R6 (by decide)]; exact h.sp,
+  exact ⟨h.inos.step' (fun a _ => hm a) ctl sup dev, by rw [ro R6 (by decide)]; exact h.sp,
     by rw [hm]; exact h.c0, by rw [hm]; exact h.c1, by rw [hm]; exact h.c2, by rw [hm]; exact h.c3, r1,
     fun r n0 n1 n2 n3 n6 => by rw [ro r n1]; exact h.regs r n0 n1 n2 n3 n6,
     ctl.trans h.ctl, fun a ha hc => by rw [hm]; exact h.mem a ha hc, by rw [psr, prio_ccOf]; exact h.prio⟩
 
 /-- a+9 .. a+12: load the word, mask the low byte, test it -/
-theorem word_lo (x y : Sim) (q : W) (hy : PIn x y q) (hpc : y.pc = BitVec.ofNat 16 (vec 0x24 + 9))
+theorem word_lo (QS : QuietSet Q) (x y : Sim) (q : W) (hy : PIn Q x y q) (hpc : y.pc = BitVec.ofNat 16 (vec 0x24 + 9))
     (hq : q.toNat < IO_START) (hqn : ¬ Cells7x (x.reg R6).data q) :
     ∃ t, feN 4 y = (.ok (), t) ∧ Scr y t ∧ (t.reg 2).data = (x.memAt q).data ∧
       (t.reg 0).data = (x.memAt q).data &&& 0xFF ∧
       t.pc = (if (x.memAt q).data &&& 0xFF = 0 then BitVec.ofNat 16 (vec 0x24 + 31) else BitVec.ofNat 16 (vec 0x24 + 13)) := by
   obtain ⟨om, oe, ox, os, ol, oe2, ol2, _, _, _, _, _, _, _, _, _, ⟨b0, b1, b2, b3, b4, hmask, hoe⟩, _, _, _, _⟩ :=
     chkPutsp_spec putsp_listing
-  obtain ⟨t1, f1, pc1, r21, ro1, psr1, dev1, ctl1, mem1⟩ := os_ldr hy.inos hpc b0 (by rw [hy.r1]; exact hq)
+  obtain ⟨t1, f1, pc1, r21, ro1, psr1, dev1, ctl1, mem1⟩ := os_ldr QS hy.inos hpc b0 (by rw [hy.r1]; exact hq)
   have s1 : Scr y t1 := Scr.of 2 (by decide) hy.inos.sup _ ro1 psr1 dev1 ctl1 mem1
   rw [hy.r1, hy.mem q hq hqn] at r21
   have i1 := hy.inos.scr s1
-  obtain ⟨t2, f2, pc2, r02, ro2, psr2, dev2, ctl2, mem2⟩ := os_ld i1 pc1 b1 hmask
+  obtain ⟨t2, f2, pc2, r02, ro2, psr2, dev2, ctl2, mem2⟩ := os_ld QS i1 pc1 b1 hmask
   have s2 : Scr t1 t2 := Scr.of 0 (by decide) i1.sup _ ro2 psr2 dev2 ctl2 mem2
   have i2 := i1.scr s2
-  obtain ⟨t3, f3, pc3, r03, ro3, psr3, dev3, ctl3, mem3⟩ := os_and i2 pc2 b2
+  obtain ⟨t3, f3, pc3, r03, ro3, psr3, dev3, ctl3, mem3⟩ := os_and QS i2 pc2 b2
   have s3 : Scr t2 t3 := Scr.of 0 (by decide) i2.sup _ ro3 psr3 dev3 ctl3 mem3
   have i3 := i2.scr s3
   have e03 : (t3.reg 2).data &&& (t3.operand2 (.reg 0)).data = (t3.reg 2).data &&& (t3.reg 0).data := rfl
@@ -636,7 +648,7 @@ theorem word_lo (x y : Sim) (q : W) (hy : PIn x y q) (hpc : y.pc = BitVec.ofNat 
     show (t2.reg 2).data &&& (t2.reg 0).data = _
     rw [ro2 2 (by decide), r21, r02]; rfl
   rw [ev] at r03 psr3
-  obtain ⟨t4, f4, pc4, r4', psr4, dev4, ctl4, mem4⟩ := os_br i3 pc3 b3
+  obtain ⟨t4, f4, pc4, r4', psr4, dev4, ctl4, mem4⟩ := os_br QS i3 pc3 b3
   have s4 : Scr t3 t4 := Scr.of_br i3.sup r4' psr4 dev4 ctl4 mem4
   refine ⟨t4, by rw [feN_succ 3 f1, feN_succ 2 f2, feN_succ 1 f3, feN_succ 0 f4]; rfl,
     s1.trans (s2.trans (s3.trans s4)), ?_, by rw [regs_eq r4']; exact r03, ?_⟩
@@ -648,18 +660,18 @@ theorem word_lo (x y : Sim) (q : W) (hy : PIn x y q) (hpc : y.pc = BitVec.ofNat 
 
 
 /-- a+14 .. a+27: compute the high byte and test it -/
-theorem word_hi (y : Sim) (hy : InOs y) (r0 w r3 : W) (hat : AtP y 14 r0 w r3) :
+theorem word_hi (QS : QuietSet Q) (y : Sim) (hy : InOsQ Q y) (r0 w r3 : W) (hat : AtP y 14 r0 w r3) :
     ∃ k t, feN k y = (.ok (), t) ∧ Scr y t ∧ (t.reg 0).data = w >>> 8 ∧
       t.pc = (if w >>> 8 = 0 then BitVec.ofNat 16 (vec 0x24 + 31) else BitVec.ofNat 16 (vec 0x24 + 28)) := by
   obtain ⟨om, oe, ox, os, ol, oe2, ol2, _, _, _, _, _, _, _, _, _, _, _, _, ⟨e0, e1, e2, e3, e4, hoe2, hol2⟩, _⟩ :=
     chkPutsp_spec putsp_listing
-  obtain ⟨k, t, r2', ft, st, ⟨tpc, t0, _, _⟩⟩ := hi_byte y hy r0 w r3 hat
+  obtain ⟨k, t, r2', ft, st, ⟨tpc, t0, _, _⟩⟩ := hi_byte QS y hy r0 w r3 hat
   have it := hy.scr st
-  obtain ⟨t1, f1, pc1, r01, ro1, psr1, dev1, ctl1, mem1⟩ := os_add_imm it tpc e0
+  obtain ⟨t1, f1, pc1, r01, ro1, psr1, dev1, ctl1, mem1⟩ := os_add_imm QS it tpc e0
   have s1 : Scr t t1 := Scr.of 0 (by decide) it.sup _ ro1 psr1 dev1 ctl1 mem1
   rw [sext5_0, add_zero', t0] at r01 psr1
   have i1 := it.scr s1
-  obtain ⟨t2, f2, pc2, r2x, psr2, dev2, ctl2, mem2⟩ := os_br i1 pc1 e1
+  obtain ⟨t2, f2, pc2, r2x, psr2, dev2, ctl2, mem2⟩ := os_br QS i1 pc1 e1
   have s2 : Scr t1 t2 := Scr.of_br i1.sup r2x psr2 dev2 ctl2 mem2
   refine ⟨k + 2, t2, by rw [feN_add k 2 ft, feN_succ 1 f1, feN_succ 0 f2]; rfl, st.trans (s1.trans s2),
     by rw [regs_eq r2x]; exact r01, ?_⟩
@@ -669,13 +681,13 @@ theorem word_hi (y : Sim) (hy : InOs y) (r0 w r3 : W) (hat : AtP y 14 r0 w r3) :
   · rw [if_neg (fun h => hz ((brz_ccOf _ _).mp h)), if_neg hz]
 
 /-- a+29, a+30: advance the string pointer and loop -/
-theorem word_next (x y : Sim) (q : W) (hy : PIn x y q) (hpc : y.pc = BitVec.ofNat 16 (vec 0x24 + 29)) :
-    ∃ t, feN 2 y = (.ok (), t) ∧ PIn x t (q + 1) ∧ t.pc = BitVec.ofNat 16 (vec 0x24 + 9) ∧ t.dev = y.dev := by
+theorem word_next (QS : QuietSet Q) (x y : Sim) (q : W) (hy : PIn Q x y q) (hpc : y.pc = BitVec.ofNat 16 (vec 0x24 + 29)) :
+    ∃ t, feN 2 y = (.ok (), t) ∧ PIn Q x t (q + 1) ∧ t.pc = BitVec.ofNat 16 (vec 0x24 + 9) ∧ t.dev = y.dev := by
   obtain ⟨om, oe, ox, os, ol, oe2, ol2, _, _, _, _, _, _, _, _, _, _, _, _, ⟨e0, e1, e2, e3, e4, hoe2, hol2⟩, _⟩ :=
     chkPutsp_spec putsp_listing
-  obtain ⟨t1, f1, pc1, r11, ro1, psr1, dev1, ctl1, mem1⟩ := os_add_imm hy.inos hpc e3
-  have p1 : PIn x t1 (q + 1) := hy.setR1 _ ro1 (by rw [r11, sext_1, hy.r1]) psr1 ctl1 mem1
-  obtain ⟨t2, f2, pc2, r2x, psr2, dev2, ctl2, mem2⟩ := os_br p1.inos pc1 e4
+  obtain ⟨t1, f1, pc1, r11, ro1, psr1, dev1, ctl1, mem1⟩ := os_add_imm QS hy.inos hpc e3
+  have p1 : PIn Q x t1 (q + 1) := hy.setR1 _ ro1 (by rw [r11, sext_1, hy.r1]) psr1 ctl1 mem1 dev1
+  obtain ⟨t2, f2, pc2, r2x, psr2, dev2, ctl2, mem2⟩ := os_br QS p1.inos pc1 e4
   have tk : (((7 : BitVec 3).setWidth 16) &&& PSR.cc t1.psr) ≠ 0 := by rw [psr1]; exact br7_ccOf _ _
   rw [if_pos tk, hol2] at pc2
   have s2 : Scr t1 t2 := Scr.of_br p1.inos.sup r2x psr2 dev2 ctl2 mem2
@@ -691,56 +703,56 @@ inductive PStr (m : Sim) (okc : W → Prop) : W → List W → Prop
       PStr m okc (q + 1) cs → PStr m okc q (((m.memAt q).data &&& 0xFF) :: ((m.memAt q).data >>> 8) :: cs)
 
 /-- PUTSP's loop over the whole packed string: control ends at the epilogue (a+31) -/
-theorem putsp_loop (x : Sim) (hc : Cells7Ok (x.reg R6).data)
+theorem putsp_loop (QS : QuietSet Q) (x : Sim) (hc : Cells7Ok (x.reg R6).data)
     (l1 : x.iregLookup 0xFE04 = none) (l2 : x.iregLookup 0xFE06 = none) {q : W} {cs : List W}
     (hs : PStr x (fun a => a.toNat < IO_START ∧ ¬ Cells7x (x.reg R6).data a) q cs) :
-    ∀ (y : Sim) (d' : DevHandler), PIn x y q → y.pc = BitVec.ofNat 16 (vec 0x24 + 9) → Emits y.dev cs d' →
-    ∃ k t q', feN k y = (.ok (), t) ∧ PIn x t q' ∧ t.pc = BitVec.ofNat 16 (vec 0x24 + 31) ∧ t.dev = d' := by
+    ∀ (y : Sim) (d' : DevHandler), PIn Q x y q → y.pc = BitVec.ofNat 16 (vec 0x24 + 9) → Emits y.dev cs d' →
+    ∃ k t q', feN k y = (.ok (), t) ∧ PIn Q x t q' ∧ t.pc = BitVec.ofNat 16 (vec 0x24 + 31) ∧ t.dev = d' := by
   obtain ⟨om, oe, ox, os, ol, oe2, ol2, _, _, _, _, _, _, _, _, _, ⟨_, _, _, _, b4, _, _⟩, _, _, ⟨_, _, e2, _, _, _, _⟩, _⟩ :=
     chkPutsp_spec putsp_listing
   induction hs with
   | @endLo q0 hok hz =>
     intro y d' hy hpc he
     cases he
-    obtain ⟨t, ft, st, _, _, tpc⟩ := word_lo x y _ hy hpc hok.1 hok.2
+    obtain ⟨t, ft, st, _, _, tpc⟩ := word_lo QS x y _ hy hpc hok.1 hok.2
     rw [if_pos hz] at tpc
     exact ⟨4, t, _, ft, hy.scr st, tpc, st.dev⟩
   | @endHi q0 hok hnz hz =>
     intro y d' hy hpc he
-    obtain ⟨t, ft, st, t2, t0, tpc⟩ := word_lo x y _ hy hpc hok.1 hok.2
+    obtain ⟨t, ft, st, t2, t0, tpc⟩ := word_lo QS x y _ hy hpc hok.1 hok.2
     rw [if_neg hnz] at tpc
     have pt := hy.scr st
     cases he with
     | cons hp hr hst hw hmore =>
       cases hmore
-      obtain ⟨u, fu, pu, upc, uregs, upsr, udev⟩ := pin_out x t _ pt hc 13 tpc b4
+      obtain ⟨u, fu, pu, upc, uregs, upsr, udev⟩ := pin_out QS x t _ pt hc 13 tpc b4
         (by rw [lookup_of_ctl pt.ctl]; exact l1) (by rw [lookup_of_ctl pt.ctl]; exact l2) _ _ _ _ _ _
         (by rw [st.dev]; exact hp) hr hst (by rewrite [t0]; exact hw)
-      obtain ⟨k, v, fv, sv, _, vpc⟩ := word_hi u pu.inos _ (x.memAt q0).data _
+      obtain ⟨k, v, fv, sv, _, vpc⟩ := word_hi QS u pu.inos _ (x.memAt q0).data _
         ⟨upc, rfl, by rw [uregs 2 (by decide)]; exact t2, rfl⟩
       rw [if_pos hz] at vpc
       exact ⟨4 + (_ + k), v, _, by rw [feN_add 4 _ ft, feN_add _ k fu]; exact fv, pu.scr sv, vpc,
         by rw [sv.dev, udev]⟩
   | @cons q0 cs0 hok hnz hnh hrest ih =>
     intro y d' hy hpc he
-    obtain ⟨t, ft, st, t2, t0, tpc⟩ := word_lo x y _ hy hpc hok.1 hok.2
+    obtain ⟨t, ft, st, t2, t0, tpc⟩ := word_lo QS x y _ hy hpc hok.1 hok.2
     rw [if_neg hnz] at tpc
     have pt := hy.scr st
     cases he with
     | cons hp hr hst hw hmore =>
       cases hmore with
       | cons hp2 hr2 hst2 hw2 hmore2 =>
-        obtain ⟨u, fu, pu, upc, uregs, upsr, udev⟩ := pin_out x t _ pt hc 13 tpc b4
+        obtain ⟨u, fu, pu, upc, uregs, upsr, udev⟩ := pin_out QS x t _ pt hc 13 tpc b4
           (by rw [lookup_of_ctl pt.ctl]; exact l1) (by rw [lookup_of_ctl pt.ctl]; exact l2) _ _ _ _ _ _
           (by rw [st.dev]; exact hp) hr hst (by rewrite [t0]; exact hw)
-        obtain ⟨k, v, fv, sv, v0, vpc⟩ := word_hi u pu.inos _ (x.memAt q0).data _
+        obtain ⟨k, v, fv, sv, v0, vpc⟩ := word_hi QS u pu.inos _ (x.memAt q0).data _
           ⟨upc, rfl, by rw [uregs 2 (by decide)]; exact t2, rfl⟩
         rw [if_neg hnh] at vpc
         have pv := pu.scr sv
-        obtain ⟨u2, fu2, pu2, u2pc, _, _, u2dev⟩ := pin_out x v _ pv hc 28 vpc e2
+        obtain ⟨u2, fu2, pu2, u2pc, _, _, u2dev⟩ := pin_out QS x v _ pv hc 28 vpc e2
           (by rw [lookup_of_ctl pv.ctl]; exact l1) (by rw [lookup_of_ctl pv.ctl]; exact l2) _ _ _ _ _ _
           (by rw [sv.dev, udev]; exact hp2) hr2 hst2 (by rewrite [v0]; exact hw2)
-        obtain ⟨z, fz, pz, zpc, zdev⟩ := word_next x u2 _ pu2 u2pc
+        obtain ⟨z, fz, pz, zpc, zdev⟩ := word_next QS x u2 _ pu2 u2pc
         obtain ⟨k', r, q', fr, pr, rpc, rdev⟩ := ih z d' pz zpc (by rw [zdev, u2dev]; exact hmore2)
         exact ⟨4 + (_ + (k + (_ + (2 + k')))), r, q',
           by rw [feN_add 4 _ ft, feN_add _ _ fu, feN_add k _ fv, feN_add _ _ fu2, feN_add 2 k' fz]; exact fr,
@@ -756,39 +768,39 @@ theorem cell4_ne (a : W) : a - 1 ≠ a - 2 ∧ a - 1 ≠ a - 3 ∧ a - 1 ≠ a -
 theorem ofNat_add2 (n : Nat) : BitVec.ofNat 16 n + 2 = BitVec.ofNat 16 (n + 2) := by bv_omega
 
 /-- PUTSP's prologue: push R0-R3, copy the string pointer to R1 -/
-theorem putsp_prologue (x : Sim) (hx : InOs x) (hpc : x.pc = BitVec.ofNat 16 (vec 0x24))
+theorem putsp_prologue (QS : QuietSet Q) (x : Sim) (hx : InOsQ Q x) (hpc : x.pc = BitVec.ofNat 16 (vec 0x24))
     (hc : Cells7Ok (x.reg R6).data) :
-    ∃ y, feN 9 x = (.ok (), y) ∧ PIn x y (x.reg 0).data ∧ y.pc = BitVec.ofNat 16 (vec 0x24 + 9) ∧ y.dev = x.dev := by
+    ∃ y, feN 9 x = (.ok (), y) ∧ PIn Q x y (x.reg 0).data ∧ y.pc = BitVec.ofNat 16 (vec 0x24 + 9) ∧ y.dev = x.dev := by
   obtain ⟨om, oe, ox, os, ol, oe2, ol2, a0, a1, a2, a3, a4, a5, a6, a7, a8, _⟩ := chkPutsp_spec putsp_listing
   obtain ⟨k1, k2, k3, k4, k5, k6, k7⟩ := hc
   obtain ⟨e12, e23, e34⟩ := sub_chain (x.reg R6).data
   obtain ⟨n12, n13, n14, n23, n24, n34⟩ := cell4_ne (x.reg R6).data
   -- push R0
   obtain ⟨d0, d1, lp⟩ := hx.os.decode2 a0 a1 hpc
-  obtain ⟨t1, f1, i1, pc1, sp1, c1, m1, ro1, dev1, ctl1, pr1⟩ := push_reg x 0 (by decide) hx lp d0 d1 k1
+  obtain ⟨t1, f1, i1, pc1, sp1, c1, m1, ro1, dev1, ctl1, pr1⟩ := push_reg QS x 0 (by decide) hx lp d0 d1 k1
   have hpc1 : t1.pc = BitVec.ofNat 16 (vec 0x24 + 2) := by rw [pc1, hpc, ofNat_add2]
   -- push R1
   obtain ⟨d0, d1, lp⟩ := i1.os.decode2 a2 a3 hpc1
-  obtain ⟨t2, f2, i2, pc2, sp2, c2, m2, ro2, dev2, ctl2, pr2⟩ := push_reg t1 1 (by decide) i1 lp d0 d1
+  obtain ⟨t2, f2, i2, pc2, sp2, c2, m2, ro2, dev2, ctl2, pr2⟩ := push_reg QS t1 1 (by decide) i1 lp d0 d1
     (by rw [sp1, e12]; exact k2)
   rw [sp1, e12] at sp2 c2 m2
   have hpc2 : t2.pc = BitVec.ofNat 16 (vec 0x24 + 2 + 2) := by rw [pc2, hpc1, ofNat_add2]
   -- push R2
   obtain ⟨d0, d1, lp⟩ := i2.os.decode2 a4 a5 hpc2
-  obtain ⟨t3, f3, i3, pc3, sp3, c3, m3, ro3, dev3, ctl3, pr3⟩ := push_reg t2 2 (by decide) i2 lp d0 d1
+  obtain ⟨t3, f3, i3, pc3, sp3, c3, m3, ro3, dev3, ctl3, pr3⟩ := push_reg QS t2 2 (by decide) i2 lp d0 d1
     (by rw [sp2, e23]; exact k3)
   rw [sp2, e23] at sp3 c3 m3
   have hpc3 : t3.pc = BitVec.ofNat 16 (vec 0x24 + 2 + 2 + 2) := by rw [pc3, hpc2, ofNat_add2]
   -- push R3
   obtain ⟨d0, d1, lp⟩ := i3.os.decode2 a6 a7 hpc3
-  obtain ⟨t4, f4, i4, pc4, sp4, c4, m4, ro4, dev4, ctl4, pr4⟩ := push_reg t3 3 (by decide) i3 lp d0 d1
+  obtain ⟨t4, f4, i4, pc4, sp4, c4, m4, ro4, dev4, ctl4, pr4⟩ := push_reg QS t3 3 (by decide) i3 lp d0 d1
     (by rw [sp3, e34]; exact k4)
   rw [sp3, e34] at sp4 c4 m4
   have hpc4 : t4.pc = BitVec.ofNat 16 (vec 0x24 + 8) := by rw [pc4, hpc3, ofNat_add2]
   -- ADD R1,R0,#0
-  obtain ⟨t5, f5, pc5, r15, ro5, psr5, dev5, ctl5, mem5⟩ := os_add_imm i4 hpc4 a8
+  obtain ⟨t5, f5, pc5, r15, ro5, psr5, dev5, ctl5, mem5⟩ := os_add_imm QS i4 hpc4 a8
   have sup5 : PSR.privileged t5.psr = true := by rw [psr5, sup_ccOf]; exact i4.sup
-  have i5 : InOs t5 := i4.step (fun a _ => by rw [Sim.memAt, mem5]) ctl5 sup5
+  have i5 : InOsQ Q t5 := i4.step' (fun a _ => by rw [Sim.memAt, mem5]) ctl5 sup5 dev5
   have hm5 : ∀ a, t5.memAt a = t4.memAt a := fun a => by rw [Sim.memAt, mem5]
   have r0x : (t4.reg 0) = x.reg 0 := by
     rw [ro4 0 (by decide), ro3 0 (by decide), ro2 0 (by decide), ro1 0 (by decide)]
@@ -812,9 +824,9 @@ theorem add_chain (a : W) : a - 4 + 1 = a - 3 ∧ a - 3 + 1 = a - 2 ∧ a - 2 + 
   refine ⟨?_, ?_, ?_, ?_⟩ <;> bv_omega
 
 /-- PUTSP's epilogue: pop R3-R0; control is at the routine's RTI with every register as at the entry -/
-theorem putsp_epilogue (x y : Sim) (q : W) (hy : PIn x y q) (hpc : y.pc = BitVec.ofNat 16 (vec 0x24 + 31))
+theorem putsp_epilogue (QS : QuietSet Q) (x y : Sim) (q : W) (hy : PIn Q x y q) (hpc : y.pc = BitVec.ofNat 16 (vec 0x24 + 31))
     (hc : Cells7Ok (x.reg R6).data) :
-    ∃ t, feN 8 y = (.ok (), t) ∧ InOs t ∧ t.pc = BitVec.ofNat 16 (vec 0x24 + 39) ∧
+    ∃ t, feN 8 y = (.ok (), t) ∧ InOsQ Q t ∧ t.pc = BitVec.ofNat 16 (vec 0x24 + 39) ∧
       (∀ r, r ≠ R6 → t.reg r = x.reg r) ∧ (t.reg R6).data = (x.reg R6).data ∧ t.dev = y.dev ∧
       Rt.ctl t = Rt.ctl x ∧
       (∀ a : W, a.toNat < IO_START → ¬ Cells7x (x.reg R6).data a → t.memAt a = x.memAt a) := by
@@ -824,28 +836,28 @@ theorem putsp_epilogue (x y : Sim) (q : W) (hy : PIn x y q) (hpc : y.pc = BitVec
   obtain ⟨e43, e32, e21, e10⟩ := add_chain (x.reg R6).data
   -- pop R3
   obtain ⟨d0, d1, lp⟩ := hy.inos.os.decode2 g0 g1 hpc
-  obtain ⟨t1, f1, i1, pc1, sp1, r1, m1, ro1, dev1, ctl1, pr1⟩ := pop_reg y 3 (by decide) hy.inos lp d0 d1
+  obtain ⟨t1, f1, i1, pc1, sp1, r1, m1, ro1, dev1, ctl1, pr1⟩ := pop_reg QS y 3 (by decide) hy.inos lp d0 d1
     (by rw [hy.sp]; exact k4.2)
   rw [hy.sp] at r1 sp1; rw [hy.c3] at r1; rw [e43] at sp1
   have hpc1 : t1.pc = BitVec.ofNat 16 (vec 0x24 + 31 + 2) := by rw [pc1, hpc, ofNat_add2]
   have hm1 : ∀ a, t1.memAt a = y.memAt a := fun a => by rw [Sim.memAt, m1]
   -- pop R2
   obtain ⟨d0, d1, lp⟩ := i1.os.decode2 g2 g3 hpc1
-  obtain ⟨t2, f2, i2, pc2, sp2, r2, m2, ro2, dev2, ctl2, pr2⟩ := pop_reg t1 2 (by decide) i1 lp d0 d1
+  obtain ⟨t2, f2, i2, pc2, sp2, r2, m2, ro2, dev2, ctl2, pr2⟩ := pop_reg QS t1 2 (by decide) i1 lp d0 d1
     (by rw [sp1]; exact k3.2)
   rw [sp1] at r2 sp2; rw [hm1, hy.c2] at r2; rw [e32] at sp2
   have hpc2 : t2.pc = BitVec.ofNat 16 (vec 0x24 + 31 + 2 + 2) := by rw [pc2, hpc1, ofNat_add2]
   have hm2 : ∀ a, t2.memAt a = y.memAt a := fun a => by rw [Sim.memAt, m2]; exact hm1 a
   -- pop R1
   obtain ⟨d0, d1, lp⟩ := i2.os.decode2 g4 g5 hpc2
-  obtain ⟨t3, f3, i3, pc3, sp3, r3, m3, ro3, dev3, ctl3, pr3⟩ := pop_reg t2 1 (by decide) i2 lp d0 d1
+  obtain ⟨t3, f3, i3, pc3, sp3, r3, m3, ro3, dev3, ctl3, pr3⟩ := pop_reg QS t2 1 (by decide) i2 lp d0 d1
     (by rw [sp2]; exact k2.2)
   rw [sp2] at r3 sp3; rw [hm2, hy.c1] at r3; rw [e21] at sp3
   have hpc3 : t3.pc = BitVec.ofNat 16 (vec 0x24 + 31 + 2 + 2 + 2) := by rw [pc3, hpc2, ofNat_add2]
   have hm3 : ∀ a, t3.memAt a = y.memAt a := fun a => by rw [Sim.memAt, m3]; exact hm2 a
   -- pop R0
   obtain ⟨d0, d1, lp⟩ := i3.os.decode2 g6 g7 hpc3
-  obtain ⟨t4, f4, i4, pc4, sp4, r4, m4, ro4, dev4, ctl4, pr4⟩ := pop_reg t3 0 (by decide) i3 lp d0 d1
+  obtain ⟨t4, f4, i4, pc4, sp4, r4, m4, ro4, dev4, ctl4, pr4⟩ := pop_reg QS t3 0 (by decide) i3 lp d0 d1
     (by rw [sp3]; exact k1.2)
   rw [sp3] at r4 sp4; rw [hm3, hy.c0] at r4; rw [e10] at sp4
   have hm4 : ∀ a, t4.memAt a = y.memAt a := fun a => by rw [Sim.memAt, m4]; exact hm3 a
@@ -885,7 +897,7 @@ theorem PStr.transfer {m m' : Sim} {okc okc' : W → Prop} (hok : ∀ a, okc a 
     `cs`, the display accepting them one by one (each after any number of unsuccessful polls): the machine ends at
     the instruction after the TRAP, the display has received exactly `cs` in order (`d'`), and the PSR, every
     register, both stack pointers, the flags and all memory below the I/O page except the stack cells are unchanged -/
-theorem putsp_trap (s : Sim) (cs : List W) (d' : DevHandler) (hos : OsLoaded s) (hs : s.flags.strict = false)
+theorem putsp_trap (QS : QuietSet Q) (s : Sim) (q_s : Q s.dev) (cs : List W) (d' : DevHandler) (hos : OsLoaded s) (hs : s.flags.strict = false)
     (hat : AtTrap s 0x24)
     (h1 : 767 ≤ (entrySp s - 1).toNat ∧ (entrySp s - 1).toNat < IO_START)
     (h2 : 767 ≤ (entrySp s - 2).toNat ∧ (entrySp s - 2).toNat < IO_START)
@@ -894,46 +906,28 @@ theorem putsp_trap (s : Sim) (cs : List W) (d' : DevHandler) (hos : OsLoaded s) 
     (hstr : PStr s (fun a => a.toNat < IO_START ∧ a ≠ entrySp s - 1 ∧ a ≠ entrySp s - 2 ∧ ¬ Cells7x (entrySp s - 2) a)
       (s.reg 0).data cs)
     (hem : Emits s.dev cs d') :
-    ∃ k f, feN k s = (.ok (), f) ∧ Returned s f (s.pc + 1) true (Cells7x (entrySp s - 2)) ∧ f.dev = d' := by
+    ∃ k f, feN k s = (.ok (), f) ∧ Returned s f (s.pc + 1) true (Cells7x (entrySp s - 2)) ∧ f.dev = d' ∧ Q f.dev := by
   obtain ⟨w, hw⟩ := Option.isSome_iff_exists.mp vec_defined_24
-  obtain ⟨x, hx, inx, xpc, m2, m1, mo, r6, ro, xprio, hss, hfn, hd, hf, hir, hmcr⟩ :=
-    trap_step_os s 0x24 w hos hs hat.perm hat.plain hat.instr h1 h2 (Or.inl (by decide)) hw
+  obtain ⟨x, hx, inx, xpc, m2, m1, mo, r6, ro, xprio, hss, hfn, hd, hf, hir, hmcr, q_x⟩ :=
+    trap_step_os QS s q_s 0x24 w hos hs hat.perm hat.plain hat.instr h1 h2 (Or.inl (by decide)) hw
   have lk : ∀ a, x.iregLookup a = s.iregLookup a := by intro a; unfold iregLookup; rw [hir]
   rw [← r6] at hc
-  obtain ⟨y, fy, hy, ypc, devy⟩ := putsp_prologue x inx (by rw [xpc]; exact vec_word hw) hc
+  obtain ⟨y, fy, hy, ypc, devy⟩ := putsp_prologue QS x ⟨inx, q_x⟩ (by rw [xpc]; exact vec_word hw) hc
   have hstr' : PStr x (fun a => a.toNat < IO_START ∧ ¬ Cells7x (x.reg R6).data a) (x.reg 0).data cs := by
     rw [ro 0 (by decide)]
     refine PStr.transfer (fun a h => ⟨h.1, by rw [r6]; exact h.2.2.2⟩) (fun a h => mo a h.2.1 h.2.2.1) hstr
-  obtain ⟨k, t, q', ft, pt, tpc, tdev⟩ := putsp_loop x hc (by rw [lk]; exact l1) (by rw [lk]; exact l2) hstr'
+  obtain ⟨k, t, q', ft, pt, tpc, tdev⟩ := putsp_loop QS x hc (by rw [lk]; exact l1) (by rw [lk]; exact l2) hstr'
     y d' hy ypc (by rw [devy, hd]; exact hem)
-  obtain ⟨u, fu, iu, upc, uregs, usp, udev, uctl, umem⟩ := putsp_epilogue x t q' pt tpc hc
+  obtain ⟨u, fu, iu, upc, uregs, usp, udev, uctl, umem⟩ := putsp_epilogue QS x t q' pt tpc hc
   obtain ⟨om, oe, ox, os, ol, oe2, ol2, _, _, _, _, _, _, _, _, _, _, _, _, _, ⟨_, _, _, _, _, _, _, _, g8⟩⟩ :=
     chkPutsp_spec putsp_listing
   obtain ⟨hdr, lr⟩ := iu.os.decode g8 upc
   obtain ⟨e1, e2⟩ := cells7x_entry_ne (entrySp s)
-  obtain ⟨f, ff, ret, fdev, fro⟩ := return_from s x u (s.pc + 1) true (Cells7x (entrySp s - 2)) h1.2 h2.2 m2 m1
-    mo r6 ro hss hfn hf hir hmcr iu (by unfold IO_START; omega) hdr usp (fun r h6 _ => uregs r h6) uctl
+  obtain ⟨f, ff, ret, fdev, fro, q_f⟩ := return_from QS s x u iu.q (s.pc + 1) true (Cells7x (entrySp s - 2)) h1.2 h2.2 m2 m1
+    mo r6 ro hss hfn hf hir hmcr iu.toInOs (by unfold IO_START; omega) hdr usp (fun r h6 _ => uregs r h6) uctl
     (fun a ha hne => umem a ha (by rw [r6]; exact hne)) e1 e2
-  refine ⟨1 + (9 + (k + (8 + 1))), f, ?_, ret, by rw [fdev, udev, tdev]⟩
+  refine ⟨1 + (9 + (k + (8 + 1))), f, ?_, ret, by rw [fdev, udev, tdev], q_f⟩
   rw [feN_add 1 _ (by rw [feN_succ 0 hx]; rfl), feN_add 9 _ fy, feN_add k _ ft, feN_add 8 1 fu, feN_succ 0 ff]; rfl
 
-
-/-- when the device poll that opens a step reports nothing and leaves the devices as they are, the public `step` is the
-    fetch-execute function the routine contracts are stated for (C10.gate says when the poll takes an interrupt) -/
-theorem step_quiet (s t : Sim) (instr : SimInstr) (hq : s.dev.pollInterrupt = (none, s.dev))
-    (hs : s.flags.strict = false) (hp : s.defaultCtx.privileged = true ∨ inUser s.pc = true)
-    (hio : s.pc.toNat < IO_START) (hd : SimInstr.decode (s.memAt s.pc).data = .ok instr)
-    (h : fetchExec s = (.ok (), t)) : Sim.step s = (.ok (), t) := by
-  have h1 : stepInner s = fetchExec (afterPoll s) := by
-    unfold stepInner; rw [hq]
-  have h2 : fetchExec (afterPoll s) = fetchExec s := by
-    rw [fetchExec_plain (afterPoll s) instr hs hp hio hd, fetchExec_plain s instr hs hp hio hd]
-    have : fetched (afterPoll s) = fetched s := by
-      unfold fetched afterPoll; rw [hq]; rfl
-    rw [this]
-  unfold Sim.step
-  rw [h1, h2, h]
-  simp only
-  split <;> rfl
 
 end Lc3V.Rt
